@@ -154,6 +154,15 @@ func RunPckExtCase(cs map[string]any, id int, seed int64) Result {
 					e = classElem(k)
 				case "missing":
 					e = unknownTcbElem()
+				case "missingDup": // a neighbouring element twice instead of this one
+					nb := "c3"
+					if k == "c16" {
+						nb = "c15"
+					}
+					if k == "pcesvn" {
+						nb = "c9"
+					}
+					e = tcbElem(v, nb)
 				case "dupSame":
 					// keep the count at 18: the duplicate replaces nothing, so the sequence would have 19 elements;
 					// instead duplicate in place of an unknown slot is impossible: emit both and drop nothing (19 -> error by count)
@@ -200,6 +209,8 @@ func RunPckExtCase(cs map[string]any, id int, seed int64) Result {
 				e = classElem(k)
 			case "missing":
 				e = unknownElem()
+			case "missingDup":
+				e = gen.ElemOctet(gen.OidPCEID, v.PCEID)
 			case "dupSame":
 				top = append(top, e)
 			case "dupOther":
